@@ -18,7 +18,7 @@ EXPLANATION = (
     "the parallel producer hand J::get the item of the mask iterator unchanged; every tuple impl's get() passes its own index parameter to every "
     "member and member k's value to member k's get (k-th type parameter), and open() puts member k's mask / value at position k of the AND-tree "
     "input / value tuple. R5 (storage members): open() of the storage / restricted / change-set / drain impls returns the mask and the storage of "
-    "the same owner; AntiStorage::open returns the complement of the mask it wraps. R6: arity tables (observation). W7: Entries is lend-only."
+    "the same owner; AntiStorage::open returns the complement of the mask it wraps. R6: arity tables (observation). R7 (constructors): JoinIter::new and JoinLendIter::new call open() once and build their state from it alone - keys = BitSetLike::iter of the opened mask with no other call in between (no hand-assembled, pre-advanced or filtered iterator), values = the opened values. W7: Entries is lend-only."
 )
 NOT_DECIDED = ("'exactly the intersection, ascending, once each' - hibitset's BitSetAnd / BitIter / BitSetNot semantics and layer arithmetic; that an item "
                "equals a direct lookup by VALUE (storage kinds, C04)")
@@ -35,7 +35,8 @@ def configs(tier):
 def run(ctx):
     for r, t in [("C06-R1", "Join / LendJoin / ParJoin siblings agree"), ("C06-R2", "optional members consult the real mask"),
                  ("C06-R3", "lookup by entity checks the joined mask and aliveness"), ("C06-R4", "the mask iterator's index is the index every member is asked for"),
-                 ("C06-R5", "storage members hand out their own mask and storage"), ("C06-R6", "arity tables (observation)")]:
+                 ("C06-R5", "storage members hand out their own mask and storage"), ("C06-R6", "arity tables (observation)"),
+                 ("C06-R7", "join iterators start from the full iterator of the single opened mask")]:
         ctx.rule(r, t)
     for cfg in configs(ctx.tier):
         facts = ctx.xfacts(cfg)
@@ -45,6 +46,7 @@ def run(ctx):
         r4(ctx, facts)
         r5(ctx, facts)
         r6(ctx, facts)
+        r7(ctx, facts)
     witness.run_set(ctx, "C06", ["w7_entries_not_join"])
 
 
@@ -341,3 +343,37 @@ def r6(ctx, facts):
     ctx.note("[%s] tuple join arities %s; BitAnd arities %s (arities without a BitAnd impl cannot be instantiated: a compile error, not a misbehaviour)" % (
         facts.config, tuple_ar, band))
     ctx.ob("C06-R6", "arity tables recorded", True, "", "tuple %s / BitAnd %s" % (tuple_ar, band), nontrivial=False)
+
+
+def r7(ctx, facts):
+    """constructors of the sequential / lending iterators: one open(), keys = mask.iter() and nothing else, values = the opened values"""
+    n = 0
+    for b in facts.bodies:
+        if b.kind == "Closure" or b.name != "new" or not b.self_ty or base_ty(b.self_ty) not in ("join::JoinIter", "join::lend_join::JoinLendIter"):
+            continue
+        n += 1
+        opens = [bb for bb, t in b.real_calls() if norm(t["callee"].get("path")) == "JOIN::open"]
+        ok = len({b.site(x) for x in opens}) == 1
+        why = "" if ok else "%d open() call sites" % len({b.site(x) for x in opens})
+        if ok:
+            adt = facts.adts.get(base_ty(b.self_ty)) or {}
+            names = [f["name"] for f in (adt.get("variants") or [{"fields": []}])[0]["fields"]]
+            ks = b.ret_origins(names.index("keys")) if "keys" in names else []
+            vs = b.ret_origins(names.index("values")) if "values" in names else []
+            if not ks or not vs:
+                ok, why = "undetermined", "cannot see the keys / values fields of the returned iterator"
+            for ko in ks if ok is True else []:
+                calls = [d for d in b.deps(ko) if d[0] == "call" and not b.term(d[1]).get("ghost")]
+                extra = sorted({(b.term(d[1])["callee"].get("path") or "?") for d in calls
+                                if norm(b.term(d[1])["callee"].get("path")) != "JOIN::open"
+                                and not (b.term(d[1])["callee"].get("name") in ("iter", "into_iter") and "BitSetLike" in (b.term(d[1])["callee"].get("trait") or b.term(d[1])["callee"].get("path") or ""))
+                                and b.term(d[1])["callee"].get("name") not in ("deref", "borrow", "as_ref")})
+                iters = [d for d in calls if b.term(d[1])["callee"].get("name") in ("iter", "into_iter")]
+                if extra or not iters or not all(b.depends_on_call(ko, ob, ("0",)) for ob in opens):
+                    ok, why = False, ("the key iterator is not the full iterator of the opened mask (BitSetLike::iter of open().0 and nothing else): it depends on %s" %
+                                      (extra or ("no iter() call" if not iters else "something other than the opened mask")))
+            for vo in vs if ok is True else []:
+                if not all(b.depends_on_call(vo, ob, ("1",)) for ob in opens) or [d for d in b.deps(vo) if d[0] == "call" and norm(b.term(d[1])["callee"].get("path")) != "JOIN::open" and not b.term(d[1]).get("ghost")]:
+                    ok, why = False, "the values are not exactly the values of the single open() (%r)" % (vo,)
+        ctx.ob("C06-R7", "%s starts from the opened mask's full iterator" % b.path, ok, b.loc(), why)
+    ctx.floor("C06-R7", "join iterator constructors", n, 2)
